@@ -165,6 +165,34 @@ CHECKS = {
              '2xx requests replayed serially must all succeed and reproduce '
              'the concurrent final raw dump exactly.',
         note='as C05'),
+    'C17': dict(
+        engine='fault-injector', category='fault_enumeration', design='4.C17',
+        technique='exhaustive single-fault enumeration over the SQL statements '
+                  'of Hypothesis-generated (state, request) pairs; faults '
+                  'raised from SQLAlchemy dialect events; oracle = differential '
+                  'against the fault-free run from the same snapshot',
+        text='For every corpus request every statement index gets every fault '
+             'kind (deadlock with/without server rollback, duplicate key, I/O '
+             'error; thorough: disconnect). Retry scopes must yield exactly '
+             'the fault-free outcome, everything else either that or a '
+             'well-formed JSON error with an untouched raw dump. Start-up '
+             'synchronisation from empty/partial tables is part of the corpus.',
+        note='SQLite + emulated driver errors (no real MySQL/PostgreSQL); '
+             'listed known findings F11, F15 are reported as KNOWN-FINDING'),
+    'C18': dict(
+        engine='fault-injector', category='fault_enumeration', design='4.C18',
+        technique='exhaustive crash-point enumeration (fork + os._exit inside '
+                  'SQLAlchemy events, SQLite journal recovery) over '
+                  'Hypothesis-generated (state, request) pairs; invariant '
+                  'oracles on the recovered file',
+        text='Every before/after-statement, before-commit and after-'
+             'transaction point of every corpus request is a kill point; the '
+             'recovered database must satisfy capacity safety, referential '
+             'integrity and the forest property and hold either the '
+             'pre-request or the completed projection of the invariant-'
+             'bearing rows.',
+        note='real process death and real SQLite recovery; a server DBMS '
+             'rolling back on disconnect is assumed equivalent'),
 }
 
 NOT_APPLICABLE = {}
@@ -224,6 +252,10 @@ def main():
              'kind_free_text': 'baton scheduler over real request threads; '
                                'scheduling points = pool checkin with no '
                                'connection checked out'},
+            {'name': 'fault-injector', 'path': 'pv/faults.py',
+             'serves_properties': ['C17', 'C18'],
+             'kind_free_text': 'statement-level fault injection via dialect '
+                               'events; crash points via fork + os._exit'},
         ],
         'checks': checks,
         'not_applicable': na,
